@@ -1467,7 +1467,8 @@ func (gs *GossipSubRouter) Join(topic string) {
 		// so drop the ones with a negative score
 		for p := range gmap {
 			_, doBackOff := backoff[p]
-			if gs.score.Score(p) < 0 || doBackOff {
+			_, direct := gs.direct[p]
+			if gs.score.Score(p) < 0 || doBackOff || direct {
 				delete(gmap, p)
 			}
 		}
